@@ -29,17 +29,29 @@ def one_case(args):
         npk = rng.choice([1000, 5000, 20000])
     sane = rng.random() < 0.5
     pkts = frame.generate(rng, npk, payload=rng.choice(["random", "random", "none"]), max_payload=(None if npk <= 400 else 64), sane_headers=sane)
+    kind = rng.choice(["link", "fee", "stave"])
+    base_val = None
+    if npk >= 4 and rng.random() < 0.5:
+        # near-aliases of one identifier: values that differ from it in exactly one bit, inside the compared field (must be told apart) and, for the
+        # stave filter, outside it (fibre bits 8..9: same stave, must match)
+        base = pkts[rng.randrange(1, npk)].f
+        for _ in range(rng.randrange(2, 8)):
+            q = pkts[rng.randrange(1, npk)].f
+            if kind == "link":
+                q["link_id"] = base["link_id"] ^ (1 << rng.randrange(8))
+            else:
+                q["fee_id"] = base["fee_id"] ^ (1 << rng.choice([0, 1, 2, 3, 4, 5, 5, 8, 9, 12, 13, 14]))
+        base_val = {"link": base["link_id"], "fee": base["fee_id"], "stave": base["fee_id"] & 0x703F}[kind]
     data = frame.serialize(pkts)
     path = os.path.join(wd, "c%d.raw" % case)
     write_file(path, data)
-    kind = rng.choice(["link", "fee", "stave"])
     allv = []
     for p in pkts:
         v = {"link": p.f["link_id"], "fee": p.f["fee_id"], "stave": p.f["fee_id"] & 0x703F}[kind]
         if v not in allv:
             allv.append(v)
     partition = rng.random() < 0.35 and len(allv) <= 12
-    vals = list(allv) if partition else [rng.choice(allv)]
+    vals = list(allv) if partition else [base_val if base_val is not None and rng.random() < 0.7 else rng.choice(allv)]
     if rng.random() < 0.15:
         absent = {"link": [v for v in range(256) if v not in allv], "fee": [v for v in range(1, 65536, 257) if v not in allv],
                   "stave": [R.fee_id(l, s) for l in range(8) for s in range(0, 64, 7) if R.fee_id(l, s) not in allv]}[kind]
@@ -49,7 +61,7 @@ def one_case(args):
     to_stdout = rng.random() < 0.5
     desc = "%d packets, filter %s over %d value(s)%s, %s -> %s, headers %s" % (npk, kind, len(vals), " (all: partition)" if partition else "",
                                                                                  "pipe" if use_stdin else "file", "stdout" if to_stdout else "file", "valid" if sane else "arbitrary")
-    out["key"] = (kind, use_stdin, to_stdout, min(npk, 202), partition, sane)
+    out["key"] = (kind, use_stdin, to_stdout, min(npk, 202), partition, sane, base_val is not None)
     out["sample"] = desc
     total = 0
     try:
